@@ -42,6 +42,8 @@ type c18Result struct {
 	EOF bool  `json:"eof,omitempty"`
 	// a goroutine was left blocked for ever, or the code panicked
 	Panic string `json:"panic,omitempty"`
+	// a Write did not report (len(buf), nil)
+	BadWrite string `json:"bad_write,omitempty"`
 }
 
 func errCode(err error) int {
@@ -203,12 +205,15 @@ func c18Concurrent(c *c18Case) c18Result {
 	w := stream.NewChanWriter(ch)
 	r := stream.NewChanReader(ch)
 	var wg sync.WaitGroup
+	badWrite := ""
 	wg.Add(1)
 	go func() {
 		defer wg.Done()
 		for _, d := range c.Writes {
 			b := toBytes(d)
-			w.Write(b)
+			if n, err := w.Write(b); n != len(b) || err != nil {
+				badWrite = fmt.Sprintf("Write of %d bytes reported (%d, %v)", len(b), n, err)
+			}
 			for j := range b {
 				b[j] = 0xEE
 			}
@@ -245,5 +250,6 @@ func c18Concurrent(c *c18Case) c18Result {
 		}
 	}
 	wg.Wait()
+	out.BadWrite = badWrite
 	return out
 }
